@@ -1144,7 +1144,10 @@ func init() {
 					}
 				}
 			}
-			for _, k := range r.Kids {
+			for i, k := range r.Kids {
+				if r.Op == "mark" && i == 1 {
+					continue
+				}
 				walk(k)
 			}
 			for _, p := range r.Fmt {
@@ -1169,7 +1172,10 @@ func init() {
 				if x.Op == "hint" || x.Op == "detail" {
 					marks = append(marks, x.S[0])
 				}
-				for _, k := range x.Kids {
+				for i, k := range x.Kids {
+					if x.Op == "mark" && i == 1 {
+						continue // the reference of Mark is not kept, only its mark
+					}
 					collect(k)
 				}
 			}
